@@ -5,6 +5,8 @@ CONSTANTS
   MaxRuns = 3
   Variant = "fixed"
   Kinds <- AllKinds
+  SubRuns <- Yes
+  Forms <- SysForms
   Publish = "tmp"
   NCk = 3
 INVARIANT TypeOK
